@@ -9,9 +9,36 @@ TRUST = ("Trusted base: the harness' ABCI driver (real JackalApp over MemDB, rea
          "Verdict = held on the executions produced, not a proof.")
 
 CLAIMED = {
+ "C01": dict(tech="runtime monitor: reference proof verifier + state-digest invariant around every PostProof, reward-block payee/credited-bytes oracle (hooked sizeTracker + bank event log)",
+             text="Every generated proof submission (12 payload classes x newcomer/listed x room/full) is judged by an independent verifier and the chain must leave prover list, proof records and balance untouched when it is invalid; every following reward block is checked for credit/payment to never-validly-proven accounts. Violations are single-step observable, so per-step monitoring over mutated payloads and histories is the right level.",
+             ref="5/C01"),
+ "C02": dict(tech="runtime monitor: honest-prover acceptance + challenge-range oracle; small-scope enumeration of proof schedules with never-removed/never-burned invariant at reward blocks",
+             text="Part (a) drives honest proofs over boundary file sizes with varying block gas and checks every challenge and acceptance (and client/chain tree agreement); part (b) enumerates the bounded schedule space (thorough: completely) and checks after each reward block that a once-per-window prover is still listed and unburned.",
+             ref="5/C02"),
+ "C03": dict(tech="runtime monitor: reference reward model vs hooked sizeTracker, post-state prover lists/burn counters and transfer event log at every reward BeginBlock",
+             text="Each reward block of generated multi-file / multi-prover histories (any failing subset and position) is compared against a reference computed from the queried pre-state: counted-once, removal+burn, proportional payouts within one unit, sum<=released.",
+             ref="5/C03"),
+ "C04": dict(tech="runtime monitor: full balance/supply snapshot diff around every purchase against the keeper's own price functions and the statement's split",
+             text="Every BuyStorage / pay-once PostFile of generated histories (tiers, durations, referral kinds, plan states, price feeds, ratio grid) is checked for exact debit, gauge funding == record, POL/referrer/staker shares within one unit, remainder in module, no other account touched, supply constant; failures must move nothing.",
+             ref="5/C04"),
+ "C07": dict(tech="runtime monitor: plan-usage invariant (queries StoragePaymentInfo/GetClientFreeSpace vs AllFilesByOwner) after every tx and BeginBlock",
+             text="The accounting invariant is evaluated at every quiescent point of generated buy/post/delete/prove/drop histories including same-key re-posts, boundary and hostile sizes.",
+             ref="5/C07"),
+ "C11": dict(tech="runtime enumeration of all registered message types x address fields through the real ante chain; KV-diff non-interference monitor; contract-plugin boundary calls",
+             text="All 45 message types (three independent enumerations must agree) are pushed through real signature verification for the creator and for every other address-bearing field; stranger replays of owner-only messages are checked by raw KV diffs of the six custom stores; the wasm plug-in boundary is called directly with matching / foreign contract addresses.",
+             ref="5/C11"),
+ "C12": dict(tech="runtime monitor: per-gauge linear-release oracle over escrow balance snapshots and transfer events at every BeginBlock",
+             text="Each gauge of generated histories (amounts 1..1e15, 1 day..3 years, irregular/zero/sub-second time steps, concurrent and same-block-equal gauges) is checked at every block for exact pro-rata cumulative release (+-1), monotonicity, cap, and silence outside reward blocks / its interval.",
+             ref="5/C12"),
  "C13": dict(tech="runtime monitor: per-block bank event-log + balance/supply snapshot oracle over generated parameter sets and block runs",
              text="Every block of every generated run (parameter grid x 40..2000 consecutive blocks, incl. governance changes mid-run) is checked against an exact-arithmetic oracle of emission, split and remainder; a violation needs only one block to show, so per-block monitoring over boundary parameter sets is the appropriate level.",
              ref="5/C13"),
+ "C14": dict(tech="runtime monitor: reference model of form signatures vs queries Attestation/Report/Proof/File after every message; (size,min) x template grid enumerated",
+             text="All (form size, minimum) pairs x 7 signature-sequence templates are enumerated by case index with PRNG populations; after every message the model's distinct-named-signer set decides exactly when the action may happen.",
+             ref="5/C14"),
+ "C15": dict(tech="runtime monitor: escrow-balance == sum(collateral records) invariant and exact debit/credit oracle after every tx, with real governance price changes",
+             text="Init/shutdown/re-init histories by several accounts with governance CollateralPrice changes between lock and refund; invariant and exact amounts checked after every transaction.",
+             ref="5/C15"),
 }
 NOT_BUILT = "monitor not built yet in this session (design in DESIGN.md section 5); will be claimed once its check runs clean"
 
